@@ -374,13 +374,20 @@ SPEC_NS.update({"deepcopy": s_deepcopy, "le": s_le, "ge": s_ge, "contains": s_co
 AXIOM_SETS.update({"val": axioms_val, "E2": axioms_E2, "E1": axioms_E1})
 
 
-def s_all_obs(I, obs, body):
+def s_all_obs(I, obs, body, ety_name=None):
     """forall x. obs(x) => body(x)   (obs: ghost set of observed values)"""
     from .calls import call_value
 
-    x = z3.Const(I.ctx.fresh_name("ox"), _V())
-    r = call_value(I, body, [SV(x, Abs("Val"))], {})
-    return SV(z3.ForAll([x], z3.Implies(z3.Select(obs.pred, x), I.zbool(r))), BOOL)
+    from .types import parse_ty as _pt
+
+    ety = getattr(obs, "ety", None) or (_pt(ety_name) if ety_name else Abs("Val"))
+    x = z3.Const(I.ctx.fresh_name("ox"), sort_of(ety))
+    r = call_value(I, body, [SV(x, ety)], {})
+    if isinstance(obs, (set, frozenset)):
+        mem = z3.Or([x == pack(I.ctx, e, ety) for e in obs]) if obs else z3.BoolVal(False)
+    else:
+        mem = z3.Select(obs.pred, x)
+    return SV(z3.ForAll([x], z3.Implies(mem, I.zbool(r))), BOOL)
 
 
 SPEC_NS["all_obs"] = s_all_obs
